@@ -287,6 +287,13 @@ class T:
             return T.const("usize", len(t.args[0]))
         if t.op == "unsize":
             return T.const("usize", t.args[1])
+        if t.op == "call" and t.args[0] in ("ops::Index::index", "ops::IndexMut::index_mut") and len(t.args[2]) == 2 and t.args[2][1].op == "agg":
+            # s[..k] has length k, s[a..b] has length b - a (the indexing returned, so the range was in bounds)
+            r = t.args[2][1]
+            if r.args[1] == "ops::RangeTo":
+                return r.args[4][0]
+            if r.args[1] == "ops::Range":
+                return T.bin("Sub", r.args[4][1], r.args[4][0], "usize")
         if t.op == "proj" and t.args[1][0] == "f" and t.args[0].op == "call" and t.args[0].args[0] == "[T]::split_at":
             s, m = t.args[0].args[2]
             if t.args[1][1] == 0:
